@@ -151,3 +151,82 @@ Qed.
 Theorem bytes_get_kmer_short (l : dna) pos : (length l < pos + K)%nat -> bytes_get_kmer c l pos = None.
 Proof. intro H. unfold bytes_get_kmer. fold K. destruct (Nat.leb_spec (pos + K) (length l)); [lia | reflexivity]. Qed.
 End Containers.
+
+(* ---------------------------------------------------------------- first/last k-mer, KmerIter: generic in the container *)
+(* A container is given by its length, [get] and [get_kmer]; the hypotheses say that they read the base list [l].
+   Every container above instantiates them (see the corollaries after the section). *)
+Section ContainerSpec.
+Variable c : kcfg.
+Hypothesis Hc : In c shipped.
+Let K := kK c.
+Variable l : dna.
+Hypothesis Hl : wf_dna l.
+Variable cget : nat -> option N.
+Variable cget_kmer : nat -> option N.
+Hypothesis Hget : forall i, (i < length l)%nat -> cget i = Some (nth i l 0).
+Hypothesis Hgk : forall i, (i + K <= length l)%nat ->
+  exists r, cget_kmer i = Some r /\ wf K r /\ decode K r = kmer_at K l i.
+Let len := length l.
+
+Lemma Kpos : (0 < K)%nat.
+Proof. apply (shipped_2K c Hc). Qed.
+Lemma nth_lt4 i : (i < length l)%nat -> nth i l 0 < 4.
+Proof. intro H. unfold wf_dna in Hl. rewrite Forall_forall in Hl. apply Hl. now apply nth_In. Qed.
+
+Theorem first_kmer_spec : (K <= len)%nat ->
+  exists r, first_kmer cget_kmer = Some r /\ wf K r /\ decode K r = kmer_at K l 0.
+Proof. intro H. unfold first_kmer. apply Hgk. subst len. lia. Qed.
+Theorem last_kmer_spec : (K <= len)%nat ->
+  exists r, last_kmer c len cget_kmer = Some r /\ wf K r /\ decode K r = kmer_at K l (len - K).
+Proof.
+  intro H. unfold last_kmer, subn. fold K. destruct (Nat.leb_spec K len) as [_|?]; [|lia]. cbn [obind].
+  apply Hgk. subst len. lia.
+Qed.
+(* the guard is needed: len - K underflows *)
+Theorem last_kmer_short : (len < K)%nat -> last_kmer c len cget_kmer = None.
+Proof. intro H. unfold last_kmer, subn. fold K. destruct (Nat.leb_spec K len); [lia | reflexivity]. Qed.
+
+Lemma kmer_iter_loop_spec : forall fuel kmer pos, wf K kmer -> (K <= pos)%nat -> (pos <= len)%nat ->
+  decode K kmer = kmer_at K l (pos - K) -> (len - pos < fuel)%nat ->
+  exists ks, kmer_iter_loop c len cget fuel kmer pos = Some ks /\ Forall (wf K) ks /\
+             map (decode K) ks = map (kmer_at K l) (seq (pos - K) (len + 1 - pos)).
+Proof.
+  pose proof Kpos as HK.
+  induction fuel as [|fuel IH]; intros kmer pos Hwf HKp Hpl Hd Hf; [lia|].
+  cbn [kmer_iter_loop]. destruct (Nat.leb_spec pos len) as [_|?]; [|lia].
+  destruct (Nat.ltb_spec pos len) as [Hlt|Hge].
+  - rewrite Hget by (subst len; lia). cbn [obind].
+    destruct (extend_right_spec c kmer (nth pos l 0) Hc Hwf (nth_lt4 pos Hlt)) as [kmer' [E [W D]]].
+    rewrite E. cbn [obind]. fold K in D.
+    assert (D' : decode K kmer' = kmer_at K l (S pos - K)).
+    { rewrite D, Hd. replace (nth pos l 0) with (nth (pos - K + K) l 0) by (f_equal; lia).
+      replace (S pos - K)%nat with (S (pos - K)) by lia. apply kmer_at_shift; [exact HK | subst len; lia]. }
+    destruct (IH kmer' (S pos) W ltac:(lia) ltac:(lia) D' ltac:(lia)) as [ks [Ek [Wk Dk]]].
+    rewrite Ek. cbn [obind]. exists (kmer :: ks). split; [reflexivity|]. split; [constructor; assumption|].
+    cbn [map]. rewrite Hd, Dk. replace (len + 1 - pos)%nat with (S (len + 1 - S pos)) by lia. cbn [seq map].
+    replace (S pos - K)%nat with (S (pos - K)) by lia. reflexivity.
+  - assert (pos = len) by lia. subst pos. cbn [obind].
+    assert (Er : kmer_iter_loop c len cget fuel kmer (S len) = Some []).
+    { destruct fuel; cbn [kmer_iter_loop]; [reflexivity|]. destruct (Nat.leb_spec (S len) len); [lia | reflexivity]. }
+    rewrite Er. cbn [obind]. exists [kmer]. split; [reflexivity|]. split; [constructor; [exact Hwf | constructor]|].
+    cbn [map]. rewrite Hd. replace (len + 1 - len)%nat with 1%nat by lia. reflexivity.
+Qed.
+
+(* the iterator yields exactly the max(0, n-K+1) k-mers of the sequence, in order *)
+Theorem iter_kmers_spec :
+  exists ks, iter_kmers c len cget cget_kmer = Some ks /\ Forall (wf K) ks /\ map (decode K) ks = kmers K l.
+Proof.
+  unfold iter_kmers. fold K. destruct (Nat.leb_spec K len) as [Hle|Hgt].
+  - destruct (first_kmer_spec Hle) as [k0 [E [W D]]]. rewrite E. cbn [obind].
+    destruct (kmer_iter_loop_spec (S len) k0 K W ltac:(lia) Hle) as [ks [Ek [Wk Dk]]]; [now rewrite Nat.sub_diag | lia |].
+    exists ks. split; [exact Ek|]. split; [exact Wk|]. rewrite Dk, Nat.sub_diag. reflexivity.
+  - cbn [obind kmer_iter_loop]. destruct (Nat.leb_spec K len) as [?|_]; [lia|].
+    exists []. split; [reflexivity|]. split; [constructor|]. unfold kmers. fold len.
+    replace (len + 1 - K)%nat with 0%nat by lia. reflexivity.
+Qed.
+Corollary iter_kmers_count ks : iter_kmers c len cget cget_kmer = Some ks -> length ks = (len + 1 - K)%nat.
+Proof.
+  intro E. destruct iter_kmers_spec as [ks' [E' [_ D]]]. rewrite E in E'. injection E' as <-.
+  rewrite <- (map_length (decode K)), D. unfold kmers. now rewrite map_length, seq_length.
+Qed.
+End ContainerSpec.
